@@ -817,6 +817,16 @@ def bounded(b):
     for _ in range(nrand):
         k = rng.randint(3, 7)
         _run_history(b, [rng.choice(U) for _ in range(k)], every_step=not quick)
+    # quarter-duration changes followed by a new point at every time around them (not left to the random histories: a point created
+    # after a change carries the divisions in force at ITS time, whatever the points before it carry)
+    qops = [u for u in U if u[0] == "q"]
+    for q1 in qops:
+        for t in range(0, 7):
+            _run_history(b, [("add", "N1", 0, 5), q1, ("gp", t)], every_step=False)
+            _run_history(b, [("add", "N1", 0, 5), q1, ("add", "R1", t, None)], every_step=False)
+            for q2 in qops:
+                if q2 is not q1:
+                    _run_history(b, [("add", "N1", 0, 5), q1, q2, ("gp", t)], every_step=False)
     # equal-valued objects of one class at one time: both stay registered, removing one leaves the other
     U2 = _twin_universe()
     rng2 = random.Random(b.seed + 1)
